@@ -79,7 +79,9 @@ class Bench:
     def on_alarm(self):
         inst = self.rec.get('fired_utc_sec_')
         self.fires.append((inst, self.wall_us))
-        prev = [x for x in self.fires[:-1] if x[0] == inst]
+        # a callback serves the instant when it runs at it or a moment early; one that ran long before it on the wall clock (a timer armed before the clock was set back,
+        # which the property allows: the delay is "as measured when the alarm was armed") has not served it, and the alarm owes the instant still
+        prev = [x for x in self.fires[:-1] if x[0] == inst and isinstance(inst, int) and x[1] >= inst * 1000000 - 1000000]
         if prev and not self.stepped_since_fire and not self.tainted:
             self.note('the alarm fires twice for the instant %s (wall clock %d.%06d and %d.%06d)' % (inst, prev[-1][1] // 1000000, prev[-1][1] % 1000000, self.wall_us // 1000000, self.wall_us % 1000000))
         self.stepped_since_fire = False
@@ -169,7 +171,7 @@ def run_script(prog, script, refresh_in_cb):
 
 
 def r15(ctx, prog):
-    depth = 5 if ctx.tier == 'thorough' else 4
+    depth = 6 if ctx.tier == 'thorough' else 5
     alpha = [('enable',), ('disable',), ('refresh',), ('fire', 0), ('fire', 5000), ('step', -700), ('step', 900), ('wait', 50)]
     scripts = []
     for n in range(1, depth + 1):
